@@ -235,8 +235,8 @@ pub fn streams() -> Vec<Box<dyn AnyStream>> {
         }),
         Box::new(Stream::<Case> {
             name: "conformance",
-            quick: 20_000,
-            thorough: 600_000,
+            quick: 40_000,
+            thorough: 3_000_000,
             source: Source::Gen(Box::new(strategy)),
             check: Box::new(check),
         }),
